@@ -18,7 +18,6 @@ import warnings
 
 warnings.filterwarnings('ignore')
 
-import cmath
 import itertools
 import math
 import multiprocessing
